@@ -161,6 +161,9 @@ impl Create {
             .set_precision(precision)
             .write_to_stdout(&sfs)?;
 
+        #[cfg(sfs_verif)]
+        runner::verif::event(format_args!(r#"{{"event":"written"}}"#));
+
         Ok(())
     }
 }
